@@ -21,7 +21,7 @@ LEVEL = "exploration"
 RULE = ("every parameter class x configuration (must_exist, valid_types of CSV and NetCDF reads, nested ListParameters, ResultParameter "
         "with/without output type and each is_fuzzy) x ~130 raw values of every kind the parser or API delivers x working directory in "
         "{None, absolute, relative, empty}; plus live contracts during random whole-model runs; distinct by (parameter config, raw value class, wd, outcome class)")
-REQUIRED_COUNTERS = ["nested_list_runs", "failed_command_rechecks", "clean_calls_judged", "contract_evaluations", "idempotence_checks", "purity_snapshots_compared", "live_double_clean_pairs", "live_argument_snapshots_compared"]
+REQUIRED_COUNTERS = ["printvars_history_rechecks", "nested_list_runs", "failed_command_rechecks", "clean_calls_judged", "contract_evaluations", "idempotence_checks", "purity_snapshots_compared", "live_double_clean_pairs", "live_argument_snapshots_compared"]
 ASSUMPTIONS = ["don't-care: what StringParameter makes of non-scalars, bool given to NumberParameter, ints other than 0/1 and numeric strings other than "
                "'0'/'1' given to BooleanParameter, 'nan'/'inf'/underscore literals, relative working directories", "NaN compared NaN-aware"]
 
@@ -93,7 +93,7 @@ def typed_ok(param, raw, result, program=None):
     if isinstance(param, P.PathParameter):
         if not isinstance(result, str):
             return "path-not-str"
-        wd = getattr(program, "working_dir", None)
+        wd = getattr(program, "_wd_given", getattr(program, "working_dir", None))      # the working directory the program was created with
         if isinstance(raw, str) and raw and not os.path.isabs(raw) and wd and os.path.isabs(wd):
             # relative paths are resolved against the working directory of the program doing the cleaning
             if os.path.normpath(result) != os.path.normpath(os.path.join(wd, raw)):
@@ -311,7 +311,7 @@ def cases(ctx):
     ncfg = len(configs())
     idx = 0
     for ci in range(ncfg):
-        for wd in ("none", "abs", "rel", "empty", "abs-copied"):
+        for wd in ("none", "abs", "rel", "empty", "abs-copied", "root"):
             if ctx.mine(idx):
                 yield {"kind": "matrix", "config": ci, "wd": wd}
             idx += 1
@@ -331,8 +331,9 @@ def _world(ctx, wd):
     for f in ("in.csv", "sub/in.csv"):
         with open(os.path.join(d, f), "w") as fh:
             fh.write("X\n1\n2\n")
-    wdir = d if wd in ("abs", "abs-copied") else os.path.relpath(d) if wd == "rel" else "" if wd == "empty" else None
+    wdir = d if wd in ("abs", "abs-copied") else os.path.relpath(d) if wd == "rel" else "" if wd == "empty" else "/" if wd == "root" else None
     program = arr.new_program(arr.CSV_LIBS + ("vprobe",), working_dir=wdir)
+    program._wd_given = wdir
     arr.standin(program, "A", numpy.ma.array([1.0, 2.0, 3.0]), fuzzy=False)
     arr.standin(program, "F", numpy.ma.array([0.5, -0.5, 1.0]), fuzzy=True)
     # an unfinished command with a declared data output
@@ -437,7 +438,7 @@ def run_case(ctx, case):
         if bad:
             ctx.fail("%s:%s:typed:%s" % (label, vclass, bad), {"raw": repr(raw)[:120], "result": repr(r1)[:120], "wd": case["wd"]})
             continue
-        if isinstance(param, P.PathParameter) and case["wd"] in ("abs", "abs-copied") and not os.path.isabs(r1):
+        if isinstance(param, P.PathParameter) and case["wd"] in ("abs", "abs-copied", "root") and not os.path.isabs(r1):
             ctx.fail("%s:%s:path-not-absolute" % (label, vclass), {"raw": repr(raw)[:120], "result": r1})
         # repeat and idempotence
         ctx.count("idempotence_checks")
@@ -447,7 +448,7 @@ def run_case(ctx, case):
                 ctx.fail("%s:%s:second-clean-differs" % (label, vclass), {"raw": repr(raw)[:120], "first": repr(r1)[:120], "second": repr(r2)[:120]})
         except Exception as e:
             ctx.fail("%s:%s:second-clean-raises-%s" % (label, vclass, type(e).__name__), {"raw": repr(raw)[:120]})
-        if isinstance(param, P.PathParameter) and case["wd"] not in ("abs", "abs-copied") and not os.path.isabs(r1):
+        if isinstance(param, P.PathParameter) and case["wd"] not in ("abs", "abs-copied", "root") and not os.path.isabs(r1):
             continue
         if isinstance(param, P.StringParameter) and not isinstance(raw, (str, int, float)) and type(param) is P.StringParameter:
             pass
@@ -495,6 +496,32 @@ def run_case(ctx, case):
                 if ob != oa or (ob == "ok" and not equal(rb, ra)):
                     ctx.fail("%s:%s:reference-to-a-command-that-failed-cleans-differently-afterwards:%s-instead-of-%s" % (label, value_class(raw), oa, ob), {"raw": repr(raw)[:120], "failed_through": how, "raised": raised})
                     break
+    if isinstance(param, (P.StringParameter, P.ListParameter, P.TupleParameter)) and not isinstance(param, P.DataTypeParameter) and case["wd"] in ("abs", "none"):
+        # history: some model that prints its variables is run between two cleanings of a raw value that holds a large array
+        big = numpy.arange(1500) * 0.25
+        raws = [big, [big, "x"], {"k": big}]
+
+        def outcome2(raw):
+            try:
+                return "ok", param.clean(raw, program, 7)
+            except Exception as e:
+                return type(e).__name__, None
+        before = [outcome2(r) for r in raws]
+        from mpilot.program import Program as _P
+        d5 = ctx.scratch()
+        with open(os.path.join(d5, "in.csv"), "w") as fh:
+            fh.write("X\n" + "\n".join(str(i) for i in range(1200)) + "\n")
+        try:
+            _P.from_source('A = EEMSRead(InFileName = "in.csv", InFieldName = X)\nP = PrintVars(InFieldNames = [A], OutFileName = "vars.txt")', working_dir=d5).run()
+        except Exception as e:
+            ctx.note_inconclusive("history model with PrintVars raises %s" % type(e).__name__)
+        ctx.count("printvars_history_rechecks")
+        after = [outcome2(r) for r in raws]
+        for raw, (ob, rb), (oa, ra) in zip(raws, before, after):
+            ctx.count("clean_calls_judged")
+            if ob != oa or (ob == "ok" and not equal(rb, ra)):
+                ctx.fail("%s:%s:large-array-cleans-differently-after-a-model-printed-its-variables" % (label, value_class(raw)), {"before": repr(rb)[:120], "after": repr(ra)[:120]})
+                break
     if isinstance(param, P.PathParameter) and case["wd"] == "abs":
         # the same parameter object serves every program of the process: a second program with another working directory
         program2, d2 = _world(ctx, "abs")
